@@ -102,7 +102,7 @@ theorem inv_setStop (nw : Nat) (s s' : State) (h : Inv nw s) (hs : step nw s .se
   · exact ra
   · exact on
   · exact cv
-  · intro i hw; exact ⟨rfl, (ex i hw).2⟩
+  · intro i hw; have := ex i hw; simp [this.2]
   · exact bd
   · intro c; have := wt c
     cases hwc : s.waiter c <;> simp [hwc, WaiterOk] at this ⊢ <;> exact this
@@ -134,5 +134,433 @@ theorem inv_join (nw : Nat) (s s' : State) (h : Inv nw s) (hs : step nw s .join 
     cases hwc : s.waiter c <;> simp [hwc, WaiterOk] at this ⊢ <;> exact this
   · exact fu
   · intro _; exact allExited_spec nw s.w hc.2
+
+
+/-- a waiter's obligations only mention the queue, the holders, `next` and `execCount` -/
+theorem waiterOk_mono (nw : Nat) (s s' : State) (ph : WPhase)
+    (hnext : s.next ≤ s'.next)
+    (hq : ∀ t, t ∈ s'.queue → t ∈ s.queue ∨ s.next ≤ t)
+    (hh : ∀ i t, (s'.w i).holds t → (s.w i).holds t ∨ (t ∈ s.queue ∧ ∀ n0 k, ph = .p2 n0 k → t < n0 → False))
+    (he : ∀ t, s.execCount t = 1 → s'.execCount t = 1)
+    (h : WaiterOk nw s ph) : WaiterOk nw s' ph := by
+  cases ph with
+  | none => trivial
+  | p1 n0 => simp only [WaiterOk] at h ⊢; omega
+  | p2 n0 k =>
+    simp only [WaiterOk] at h ⊢
+    refine ⟨by omega, h.2.1, ?_⟩
+    intro t ht
+    have h3 := h.2.2 t ht
+    refine ⟨?_, ?_⟩
+    · intro hm
+      rcases hq t hm with h1 | h1
+      · exact h3.1 h1
+      · omega
+    · intro i hi hho
+      rcases hh i t hho with h1 | h1
+      · exact h3.2 i hi h1
+      · exact h3.1 h1.1
+  | returned n0 =>
+    simp only [WaiterOk] at h ⊢
+    intro t ht; exact he t (h t ht)
+
+theorem inv_pop (nw : Nat) (s s' : State) (i : Nat) (h : Inv nw s) (hs : step nw s (.pop i) = some s') : Inv nw s' := by
+  simp only [step] at hs
+  split at hs <;> try simp at hs
+  rename_i hi
+  split at hs <;> simp at hs
+  rename_i t q hwi hq
+  subst hs
+  obtain ⟨qd, nd, rn, ra, on, cv, ex, bd, wt, fu, jn⟩ := h
+  have hqd := qd t (by rw [hq]; exact List.mem_cons_self)
+  rw [hq] at nd
+  have htq : t ∉ q := (List.nodup_cons.1 nd).1
+  constructor <;> simp only
+  · intro u hu
+    have hu' := qd u (by rw [hq]; exact List.mem_cons_of_mem _ hu)
+    refine ⟨hu'.1, hu'.2.1, ?_⟩
+    intro j; rw [holds_upd]; split
+    · rw [holds_running]; intro e; subst e; exact htq hu
+    · exact hu'.2.2 j
+  · exact (List.nodup_cons.1 nd).2
+  · intro j u hw
+    rw [upd_apply] at hw
+    split at hw
+    · rename_i hj
+      cases hw
+      refine ⟨hqd.1, hqd.2.1, ?_⟩
+      intro k hk; rw [holds_upd]; subst hj; simp only [hk, if_false]
+      exact hqd.2.2 k
+    · rename_i hj
+      have := rn j u hw
+      refine ⟨this.1, this.2.1, ?_⟩
+      intro k hk; rw [holds_upd]; split
+      · rw [holds_running]; intro e; subst e
+        exact hqd.2.2 j (by rw [hw]; exact rfl)
+      · exact this.2.2 k hk
+  · intro j u hw
+    rw [upd_apply] at hw
+    split at hw
+    · cases hw
+    · rename_i hj
+      have := ra j u hw
+      refine ⟨this.1, this.2.1, ?_⟩
+      intro k hk; rw [holds_upd]; split
+      · rw [holds_running]; intro e; subst e
+        exact hqd.2.2 j (by rw [hw]; exact rfl)
+      · exact this.2.2 k hk
+  · exact on
+  · intro u hu
+    rcases cv u hu with h1 | ⟨j, h1⟩ | h1
+    · rw [hq] at h1
+      rcases List.mem_cons.1 h1 with h2 | h2
+      · right; left; exact ⟨i, by rw [holds_upd]; simp [h2, holds_running]⟩
+      · left; exact h2
+    · right; left; refine ⟨j, ?_⟩
+      rw [holds_upd]; split
+      · rename_i hj; subst hj; rw [hwi] at h1; exact absurd h1 (holds_idle u)
+      · exact h1
+    · right; right; exact h1
+  · intro j hw
+    rw [upd_apply] at hw
+    split at hw
+    · cases hw
+    · have := ex j hw; rw [hq] at this; simp at this
+  · intro j hw
+    rw [upd_apply] at hw
+    split at hw
+    · rename_i hj; omega
+    · exact bd j hw
+  · intro c
+    refine waiterOk_mono nw s _ (s.waiter c) (Nat.le_refl _) ?_ ?_ (fun _ h => h) (wt c)
+    · intro u hu; left; rw [hq]; exact List.mem_cons_of_mem _ hu
+    · intro j u hho
+      rw [holds_upd] at hho
+      split at hho
+      · rw [holds_running] at hho; subst hho
+        right; refine ⟨by rw [hq]; exact List.mem_cons_self, ?_⟩
+        intro n0 k hph hlt
+        have hw := wt c; rw [hph] at hw; simp only [WaiterOk] at hw
+        exact (hw.2.2 t hlt).1 (by rw [hq]; exact List.mem_cons_self)
+      · left; exact hho
+  · exact fu
+  · intro hj k hk
+    have := jn hj k hk
+    rw [upd_apply]; split
+    · rename_i hki; subst hki; rw [hwi] at this; cases this
+    · exact this
+
+
+theorem inv_exec (nw : Nat) (s s' : State) (i t : Nat) (r : Int) (h : Inv nw s)
+    (hs : step nw s (.exec i t r) = some s') : Inv nw s' := by
+  simp only [step] at hs
+  split at hs <;> try simp at hs
+  rename_i t' hwi
+  obtain ⟨ht, hs⟩ := hs
+  subst ht; subst hs
+  obtain ⟨qd, nd, rn, ra, on, cv, ex, bd, wt, fu, jn⟩ := h
+  have hrn := rn i t' hwi
+  have htq : t' ∉ s.queue := fun hm => (qd t' hm).2.2 i (by rw [hwi]; exact rfl)
+  constructor <;> simp only
+  · intro u hu
+    have hu' := qd u hu
+    have hut : u ≠ t' := fun e => htq (e ▸ hu)
+    refine ⟨hu'.1, by rw [upd_other _ _ _ _ hut]; exact hu'.2.1, ?_⟩
+    intro j; rw [holds_upd]; split
+    · rw [holds_ran]; exact fun e => hut e.symm
+    · exact hu'.2.2 j
+  · exact nd
+  · intro j u hw
+    rw [upd_apply] at hw
+    split at hw
+    · cases hw
+    · rename_i hj
+      have := rn j u hw
+      have hut : u ≠ t' := fun e => hrn.2.2 j hj (by rw [hw, e]; exact rfl)
+      refine ⟨this.1, by rw [upd_other _ _ _ _ hut]; exact this.2.1, ?_⟩
+      intro k hk; rw [holds_upd]; split
+      · rw [holds_ran]; exact fun e => hut e.symm
+      · exact this.2.2 k hk
+  · intro j u hw
+    rw [upd_apply] at hw
+    split at hw
+    · rename_i hj
+      cases hw; subst hj
+      refine ⟨hrn.1, by simp [hrn.2.1], ?_⟩
+      intro k hk; rw [holds_upd]; simp only [hk, if_false]; exact hrn.2.2 k hk
+    · rename_i hj
+      have := ra j u hw
+      have hut : u ≠ t' := fun e => hrn.2.2 j hj (by rw [hw, e]; exact rfl)
+      refine ⟨this.1, by rw [upd_other _ _ _ _ hut]; exact this.2.1, ?_⟩
+      intro k hk; rw [holds_upd]; split
+      · rw [holds_ran]; exact fun e => hut e.symm
+      · exact this.2.2 k hk
+  · intro u
+    rw [upd_apply]; split
+    · rename_i hu; subst hu; simp [hrn.2.1, hrn.1]
+    · exact on u
+  · intro u hu
+    rcases cv u hu with h1 | ⟨j, h1⟩ | h1
+    · left; exact h1
+    · right; left; refine ⟨j, ?_⟩
+      rw [holds_upd]; split
+      · rename_i hj; subst hj; rw [hwi, holds_running] at h1; rw [holds_ran]; exact h1
+      · exact h1
+    · right; right
+      have hut : u ≠ t' := fun e => by rw [e, hrn.2.1] at h1; cases h1
+      rw [upd_other _ _ _ _ hut]; exact h1
+  · intro j hw
+    rw [upd_apply] at hw
+    split at hw
+    · cases hw
+    · exact ex j hw
+  · intro j hw
+    rw [upd_apply] at hw
+    split at hw
+    · rename_i hj; subst hj; exact bd j (by rw [hwi]; simp)
+    · exact bd j hw
+  · intro c
+    refine waiterOk_mono nw s _ (s.waiter c) (Nat.le_refl _) (fun _ h => Or.inl h) ?_ ?_ (wt c)
+    · intro j u hho
+      left
+      rw [holds_upd] at hho
+      split at hho
+      · rename_i hj; subst hj; rw [holds_ran] at hho; rw [hwi, holds_running]; exact hho
+      · exact hho
+    · intro u hu
+      have hut : u ≠ t' := fun e => by rw [e, hrn.2.1] at hu; cases hu
+      show upd s.execCount t' (s.execCount t' + 1) u = 1
+      rw [upd_other _ _ _ _ hut]; exact hu
+  · intro u r' hf
+    rw [upd_apply] at hf
+    show upd s.execCount t' (s.execCount t' + 1) u = 1
+    rw [upd_apply]
+    split
+    · simp [hrn.2.1]
+    · rename_i hut; simp only [hut, if_false] at hf; exact fu u r' hf
+  · intro hj k hk
+    have := jn hj k hk
+    rw [upd_apply]; split
+    · rename_i hki; subst hki; rw [hwi] at this; cases this
+    · exact this
+
+theorem inv_finish (nw : Nat) (s s' : State) (i : Nat) (h : Inv nw s)
+    (hs : step nw s (.finish i) = some s') : Inv nw s' := by
+  simp only [step] at hs
+  split at hs <;> try simp at hs
+  rename_i t hwi
+  subst hs
+  obtain ⟨qd, nd, rn, ra, on, cv, ex, bd, wt, fu, jn⟩ := h
+  have hra := ra i t hwi
+  constructor <;> simp only
+  · intro u hu
+    have hu' := qd u hu
+    refine ⟨hu'.1, hu'.2.1, ?_⟩
+    intro j; rw [holds_upd]; split
+    · exact holds_idle u
+    · exact hu'.2.2 j
+  · exact nd
+  · intro j u hw
+    rw [upd_apply] at hw
+    split at hw
+    · cases hw
+    · have := rn j u hw
+      refine ⟨this.1, this.2.1, ?_⟩
+      intro k hk; rw [holds_upd]; split
+      · exact holds_idle u
+      · exact this.2.2 k hk
+  · intro j u hw
+    rw [upd_apply] at hw
+    split at hw
+    · cases hw
+    · have := ra j u hw
+      refine ⟨this.1, this.2.1, ?_⟩
+      intro k hk; rw [holds_upd]; split
+      · exact holds_idle u
+      · exact this.2.2 k hk
+  · exact on
+  · intro u hu
+    rcases cv u hu with h1 | ⟨j, h1⟩ | h1
+    · left; exact h1
+    · by_cases hj : j = i
+      · subst hj; rw [hwi, holds_ran] at h1; subst h1; right; right; exact hra.2.1
+      · right; left; exact ⟨j, by rw [holds_upd]; simp only [hj, if_false]; exact h1⟩
+    · right; right; exact h1
+  · intro j hw
+    rw [upd_apply] at hw
+    split at hw
+    · cases hw
+    · exact ex j hw
+  · intro j hw
+    rw [upd_apply] at hw
+    split at hw
+    · exact absurd rfl hw
+    · exact bd j hw
+  · intro c
+    refine waiterOk_mono nw s _ (s.waiter c) (Nat.le_refl _) (fun _ h => Or.inl h) ?_ (fun _ h => h) (wt c)
+    intro j u hho
+    left
+    rw [holds_upd] at hho
+    split at hho
+    · exact absurd hho (holds_idle u)
+    · exact hho
+  · exact fu
+  · intro hj k hk
+    have := jn hj k hk
+    rw [upd_apply]; split
+    · rename_i hki; subst hki; rw [hwi] at this; cases this
+    · exact this
+
+theorem inv_exitW (nw : Nat) (s s' : State) (i : Nat) (h : Inv nw s)
+    (hs : step nw s (.exitW i) = some s') : Inv nw s' := by
+  simp only [step] at hs
+  split at hs <;> try simp at hs
+  rename_i hwi
+  obtain ⟨⟨hi, hstop, hq⟩, hs⟩ := hs
+  subst hs
+  obtain ⟨qd, nd, rn, ra, on, cv, ex, bd, wt, fu, jn⟩ := h
+  constructor <;> simp only
+  · intro u hu; rw [hq] at hu; cases hu
+  · exact nd
+  · intro j u hw
+    rw [upd_apply] at hw
+    split at hw
+    · cases hw
+    · have := rn j u hw
+      refine ⟨this.1, this.2.1, ?_⟩
+      intro k hk; rw [holds_upd]; split
+      · exact holds_exited u
+      · exact this.2.2 k hk
+  · intro j u hw
+    rw [upd_apply] at hw
+    split at hw
+    · cases hw
+    · have := ra j u hw
+      refine ⟨this.1, this.2.1, ?_⟩
+      intro k hk; rw [holds_upd]; split
+      · exact holds_exited u
+      · exact this.2.2 k hk
+  · exact on
+  · intro u hu
+    rcases cv u hu with h1 | ⟨j, h1⟩ | h1
+    · left; exact h1
+    · right; left; refine ⟨j, ?_⟩
+      rw [holds_upd]; split
+      · rename_i hj; subst hj; rw [hwi] at h1; exact absurd h1 (holds_idle u)
+      · exact h1
+    · right; right; exact h1
+  · intro j _; exact ⟨hstop, hq⟩
+  · intro j hw
+    rw [upd_apply] at hw
+    split at hw
+    · rename_i hj; omega
+    · exact bd j hw
+  · intro c
+    refine waiterOk_mono nw s _ (s.waiter c) (Nat.le_refl _) (fun _ h => Or.inl h) ?_ (fun _ h => h) (wt c)
+    intro j u hho
+    left
+    rw [holds_upd] at hho
+    split at hho
+    · exact absurd hho (holds_exited u)
+    · exact hho
+  · exact fu
+  · intro hj k hk
+    have := jn hj k hk
+    rw [upd_apply]; split
+    · rfl
+    · exact this
+
+
+/-- steps of `wait()` only change the waiter map -/
+theorem inv_waiter_update (nw : Nat) (s : State) (c : Nat) (ph : WPhase) (h : Inv nw s)
+    (hph : WaiterOk nw s ph) : Inv nw { s with waiter := upd s.waiter c ph } := by
+  obtain ⟨qd, nd, rn, ra, on, cv, ex, bd, wt, fu, jn⟩ := h
+  constructor <;> simp only
+  · exact qd
+  · exact nd
+  · exact rn
+  · exact ra
+  · exact on
+  · exact cv
+  · exact ex
+  · exact bd
+  · intro c'
+    rw [upd_apply]; split
+    · refine waiterOk_mono nw s _ ph (Nat.le_refl _) (fun _ h => Or.inl h) (fun _ _ h => Or.inl h) (fun _ h => h) hph
+    · refine waiterOk_mono nw s _ (s.waiter c') (Nat.le_refl _) (fun _ h => Or.inl h) (fun _ _ h => Or.inl h) (fun _ h => h) (wt c')
+  · exact fu
+  · exact jn
+
+theorem inv_wBegin (nw : Nat) (s s' : State) (c : Nat) (h : Inv nw s)
+    (hs : step nw s (.wBegin c) = some s') : Inv nw s' := by
+  simp only [step] at hs
+  split at hs <;> simp at hs
+  subst hs
+  exact inv_waiter_update nw s c _ h (by simp [WaiterOk])
+
+theorem inv_wEmpty (nw : Nat) (s s' : State) (c : Nat) (h : Inv nw s)
+    (hs : step nw s (.wEmpty c) = some s') : Inv nw s' := by
+  simp only [step] at hs
+  split at hs <;> try simp at hs
+  rename_i n0 hwc
+  obtain ⟨hq, hs⟩ := hs
+  subst hs
+  have hw := h.waiters c; rw [hwc] at hw; simp only [WaiterOk] at hw
+  refine inv_waiter_update nw s c _ h ?_
+  simp only [WaiterOk]
+  exact ⟨hw, Nat.zero_le _, fun t _ => ⟨by rw [hq]; simp, fun i hi => absurd hi (Nat.not_lt_zero i)⟩⟩
+
+theorem inv_wIdle (nw : Nat) (s s' : State) (c i : Nat) (h : Inv nw s)
+    (hs : step nw s (.wIdle c i) = some s') : Inv nw s' := by
+  simp only [step] at hs
+  split at hs <;> try simp at hs
+  rename_i n0 k hwc
+  obtain ⟨⟨hik, hk, hidle⟩, hs⟩ := hs
+  subst hs
+  have hw := h.waiters c; rw [hwc] at hw; simp only [WaiterOk] at hw
+  refine inv_waiter_update nw s c _ h ?_
+  simp only [WaiterOk]
+  refine ⟨hw.1, by omega, fun t ht => ⟨(hw.2.2 t ht).1, fun j hj => ?_⟩⟩
+  by_cases hjk : j = k
+  · subst hjk
+    rcases hidle with h1 | h1 <;> rw [h1]
+    · exact holds_idle t
+    · exact holds_exited t
+  · exact (hw.2.2 t ht).2 j (by omega)
+
+theorem inv_wReturn (nw : Nat) (s s' : State) (c : Nat) (h : Inv nw s)
+    (hs : step nw s (.wReturn c) = some s') : Inv nw s' := by
+  simp only [step] at hs
+  split at hs <;> try simp at hs
+  rename_i n0 k hwc
+  obtain ⟨hk, hs⟩ := hs
+  subst hs; subst hk
+  have hw := h.waiters c; rw [hwc] at hw; simp only [WaiterOk] at hw
+  refine inv_waiter_update k s c _ h ?_
+  simp only [WaiterOk]
+  intro t ht
+  rcases h.cover t (by omega) with h1 | ⟨j, h1⟩ | h1
+  · exact absurd h1 (hw.2.2 t ht).1
+  · have hj : j < k := h.bound j (by intro e; rw [e] at h1; exact holds_idle t h1)
+    exact absurd h1 ((hw.2.2 t ht).2 j hj)
+  · exact h1
+
+/-- every step of the pool preserves the invariant -/
+theorem inv_step (nw : Nat) (s : State) (e : Event) (s' : State) (h : Inv nw s)
+    (hs : (pool nw).step s e = some s') : Inv nw s' := by
+  cases e with
+  | submit t => exact inv_submit nw s s' t h hs
+  | submitRejected => exact inv_submitRejected nw s s' h hs
+  | pop i => exact inv_pop nw s s' i h hs
+  | exec i t r => exact inv_exec nw s s' i t r h hs
+  | finish i => exact inv_finish nw s s' i h hs
+  | exitW i => exact inv_exitW nw s s' i h hs
+  | setStop => exact inv_setStop nw s s' h hs
+  | join => exact inv_join nw s s' h hs
+  | wBegin c => exact inv_wBegin nw s s' c h hs
+  | wEmpty c => exact inv_wEmpty nw s s' c h hs
+  | wIdle c i => exact inv_wIdle nw s s' c i h hs
+  | wReturn c => exact inv_wReturn nw s s' c h hs
+  | get t r => exact inv_get nw s s' t r h hs
 
 end TfelVerif.C29
